@@ -103,6 +103,12 @@ class Exec:
             # of oblige for these kinds assumes the condition afterwards)
             self.vc.waived_panics.append('%s: %s' % (kind, clause))
             return None
+        if kind in PANIC_KINDS and kind not in ('callee-may-panic', 'pre') and self.top is self and self.cur is not None and self.recovers():
+            # a run-time panic of an instruction inside a function whose deferred closure recovers: not an obligation but a
+            # second path - taken exactly when the safety condition fails - through the deferred closure to the recover block
+            # (every caller of oblige for these kinds assumes the condition on the normal path afterwards)
+            self.fork_panic_when(guard, goal, clause, line)
+            return None
         tg = list(tags)
         if self.top.contract is not None:
             tg += [t for t in self.top.contract.tags if t not in tg]
@@ -974,6 +980,19 @@ class Exec:
         self.run_deferred(V(rv, 'Any', 'interface{}'))
         self.panic_edges.append((self.reach, self.st))
         self.reach = vc.define(self.nm('no$panic'), 'Bool', and_(reach0, not_(p)))
+        self.st = st0
+
+    def fork_panic_when(self, guard, goal, what, line):
+        vc = self.vc
+        reach0, st0 = self.reach, self.st
+        self.reach = vc.define(self.nm('panic$path'), 'Bool', and_(guard, not_(goal)))
+        self.st = st0.copy()
+        rv = vc.declare(self.nm('panic$value'), 'Any')
+        vc.assume(not_(eq(rv, 'a.nil')), self.reach)
+        self.run_deferred(V(rv, 'Any', 'interface{}'))
+        self.panic_edges.append((self.reach, self.st))
+        # the normal path continues only where the condition holds (what the callers assume next is then guarded by it)
+        self.reach = vc.define(self.nm('no$panic'), 'Bool', and_(reach0, or_(not_(guard), goal)))
         self.st = st0
 
     def i_Go(self, ins, blk):
